@@ -244,3 +244,43 @@ func VH_C07_attemptContext() {
 	vAssert(attempts[0] == N && attempts[1] == 1, "failing-item-gets-exactly-N-attempts")
 	vCover("attempt-context")
 }
+
+// every element of the list prep produced is an item - also a nil element of a typed slice handed
+// over through the any-style prep option: none skipped, slots in prep's order
+func VH_C07_typedSliceItems() {
+	vUnwind(16)
+	a, b := &vTok{id: 1}, &vTok{id: 2}
+	items := []*vTok{a, nil, b}
+	switch vChoice("nilAt", 4) {
+	case 0:
+		items = []*vTok{nil, a, b}
+	case 2:
+		items = []*vTok{a, b, nil}
+	case 3:
+		items = []*vTok{a, b} // no nil element at all
+	}
+	n := len(items)
+	execs := 0
+	var seen []any
+	posted := false
+	bn := NewBatchNode(
+		WithPrepFuncAny(func(ctx context.Context, s *SharedStore) (any, error) { return items, nil }),
+		WithExecFuncAny(func(ctx context.Context, it any) (any, error) {
+			vMon(func() { execs++; seen = append(seen, it) })
+			return it, nil
+		})).WithBatchConcurrency(vChoice("concurrency", 2))
+	bn.WithPostFunc(func(ctx context.Context, s *SharedStore, its, results []Result) (Action, error) {
+		vMon(func() {
+			posted = true
+			vAssert(len(its) == n && len(results) == n, "every-item-processed-exactly-once")
+			for i := 0; i < len(its) && i < n; i++ {
+				p, _ := its[i].Value().(*vTok)
+				vAssert(p == items[i], "every-item-processed-exactly-once")
+			}
+		})
+		return "done", nil
+	})
+	_, err := Run(vNewCtx(), bn, NewSharedStore())
+	vAssert(err == nil && posted && execs == n, "every-item-processed-exactly-once")
+	vCover("typed-slice-items")
+}
